@@ -389,8 +389,13 @@ impl QosPolicies {
 
     // check Ownership:
     // offered kind == requested kind
+    // Strength is not a request/offered property, so it is not compared.
     if let (Some(off), Some(req)) = (self.ownership, other.ownership) {
-      if off != req {
+      if matches!(
+        (off, req),
+        (policy::Ownership::Shared, policy::Ownership::Exclusive { .. })
+          | (policy::Ownership::Exclusive { .. }, policy::Ownership::Shared)
+      ) {
         return Some(QosPolicyId::Ownership);
       }
     }
